@@ -47,25 +47,34 @@ KindTable == [n \in {"size.s0", "size.s1", "size.exact", "size.plus1", "size.max
              @@ ("prevcrc.rand" :> <<"prevcrc", "rand">>) @@ ("crc.rand" :> <<"crc", "rand">>)
              @@ ("prevcrc.zero" :> <<"prevcrc", "zero">>) @@ ("crc.zero" :> <<"crc", "zero">>)
              @@ ("payload.rand" :> <<"payload", "rand">>) @@ ("payload.zero" :> <<"payload", "zero">>)
-             @@ ("splice.donor" :> <<"splice", "donor">>)
+             @@ ("splice.donor" :> <<"splice", "donor">>) @@ ("record.zero" :> <<"record", "zero">>)
 DmgKinds == {KindTable[n] : n \in DmgNames}
 
-Damages(p) ==
+\* records a crash may tear / records damage may hit / segment files a crash may lose
+Tearable(p) == {i \in 1..N(p) : i - 1 > Durable(p)}
+Losable(p) == {l \in 0..MaxLost : l <= NSeg(p) - 1 /\ \A s \in (NSeg(p) - l + 1)..NSeg(p) : FirstRec(p, s) - 1 > p.synced}
+Damages(p, rs, lost) ==
+    LET hit == {d \in 0..(N(p) - 1) : rs[d + 1] = "complete" /\ Lay(p)[d + 1].seg <= NSeg(p) - lost} IN
     {None} \cup
-    {[rec |-> d, field |-> k[1], cls |-> k[2], at |-> -1] : d \in 0..(N(p) - 1), k \in {x \in DmgKinds : x[1] # "splice"}} \cup
-    {[rec |-> d, field |-> "splice", cls |-> "donor", at |-> j] :
-        d \in 0..(N(p) - 1), j \in {x \in 0..(N(p) - 1) : <<"splice", "donor">> \in DmgKinds}}
+    {[rec |-> d, field |-> k[1], cls |-> k[2], at |-> -1] : d \in hit, k \in {x \in DmgKinds : x[1] # "splice"}} \cup
+    UNION {{[rec |-> d, field |-> "splice", cls |-> "donor", at |-> j] :
+               j \in {x \in 0..(N(p) - 1) : /\ <<"splice", "donor">> \in DmgKinds /\ x # d
+                                            /\ p.sizes[x + 1] = p.sizes[d + 1]}} : d \in hit}
+\* at most one index file is in a state other than ok
+Idxs(p) == LET k == NSeg(p) - 1 IN
+           {[s \in 1..k |-> "ok"]} \cup
+           {[s \in 1..k |-> IF s = t THEN x ELSE "ok"] : t \in 1..k, x \in IdxOf(p.codec) \ {"ok"}}
 
 Posts(dm) == IF dm.field # "none" /\ ~PostWithDamage THEN {<<>>} ELSE {<<>>} \cup {<<s>> : s \in PostSizes}
 
 Crash ==
     /\ phase = "pre" /\ phase' = "crashed" /\ UNCHANGED out
-    /\ \E rs \in [1..N(img) -> States(img.codec)], lost \in 0..MaxLost, dm \in Damages(img) :
-         /\ (dm.field # "none" /\ ~TearWithDamage) => \A i \in 1..N(img) : rs[i] = "complete"
-         /\ lost <= NSeg(img) - 1
-         /\ \E ix \in [1..(NSeg(img) - 1) -> IdxOf(img.codec)], po \in Posts(dm) :
-              /\ img' = [img EXCEPT !.rs = rs, !.lost = lost, !.idx = ix, !.dmg = dm, !.post = po]
-              /\ ImageOK(img')
+    /\ \E t \in [Tearable(img) -> States(img.codec)], lost \in Losable(img) :
+         LET rs == [i \in 1..N(img) |-> IF i \in Tearable(img) THEN t[i] ELSE "complete"] IN
+         \E dm \in Damages(img, rs, lost) :
+            /\ (dm.field # "none" /\ ~TearWithDamage) => \A i \in 1..N(img) : rs[i] = "complete"
+            /\ \E ix \in Idxs(img), po \in Posts(dm) :
+                 img' = [img EXCEPT !.rs = rs, !.lost = lost, !.idx = ix, !.dmg = dm, !.post = po]
 
 Modelled(i) == i.codec = "v2" \/ ~Damaged(i)
 
